@@ -18,6 +18,7 @@ CLAIMS = {
  "C13": "Round-trip theorems (value modulo slice offsets, exact consumption, untouched remainder) for ServerDHParams, ECParameters in both forms, ServerECDHParams, ECPoint and both DigitallySigned forms against RFC encoders, over the full ranges of all length fields; rejection of every other curve type; parse_content_and_signature characterised for EVERY content parser and both flag values.",
  "C14": "Round-trip theorems for a single SCT and for SCT lists of any length (generic many0(complete(..)) lemma), every field exact; over-long list gives Incomplete with the exact count; an over-long entry is not decoded (the list stops before it).",
  "C04": "Round-trip theorem for all 17 handshake variants against RFC encoders (value modulo slice offsets, exact consumption, remainder untouched; absent vs empty extension block and session id, list order, opaque bodies), including the alt(TLS1.2, legacy) CertificateRequest disambiguation; confinement to the 24-bit length as an equation for every input; rejection theorems (session id > 32, odd/over-long cipher list, over-long compression list, short ticket, over-long certificate list / status blob, unsupported ServerHello version, unknown type, cut-off message), each universally quantified; dispatch and version tables re-read from the source each run.",
+ "C05": "The three dispatchers are interpreters of tables regenerated from the source's match blocks; proved: the generic table is the IANA assignment, the client/server tables agree with it, the GREASE test selects exactly the 16 RFC 8701 values (all 65536 types by kernel computation), the 16 tag constants are the IANA types; round-trip of all 26 typed variants for every well-formed content through any dispatcher that lists the type, GREASE and unknown types preserved byte-for-byte, whole extension blocks (generic many0 lemma), dispatcher agreement as a general lemma, empty-only extensions rejected with data, over-long length never a value. Differential: all 65536 types x three dispatchers, all variants, tag parsers on right and wrong types.",
 }
 def chk(pid):
     return {"property_id": pid, "quick_cmd": "./check %s --tier quick" % pid, "thorough_cmd": "./check %s --tier thorough" % pid,
